@@ -1137,7 +1137,10 @@ pub fn dag_font(levels: usize, fanout: usize) -> TtFont {
 pub fn tt_groups(cfg_seed: u64, rng: &mut Rng, all_glyphs: bool) -> Vec<GroupSpec> {
     // level 1 on these tiny fonts = all glyph ids, full size/coord product
     let level = if all_glyphs { 1 } else { 0 };
-    let mut v = vec![GroupSpec::new("unhinted", level, cfg_seed), GroupSpec::new("memory", 0, cfg_seed)];
+    let mut v = vec![GroupSpec::new("unhinted", level, cfg_seed)];
+    for k in 0..3 {
+        v.push(GroupSpec::new(format!("memory:{}", k), 0, cfg_seed));
+    }
     // each hinting configuration as 6 cases (one (size, location) pair each): creating an instance runs the
     // generated fpgm + prep, which may legitimately use most of the interpreter's budget every time
     let hint = |v: &mut Vec<GroupSpec>, e: usize, t: usize| {
